@@ -3,6 +3,8 @@ mod c02;
 mod extract;
 mod c03;
 mod c04;
+mod c05;
+mod gad;
 mod c09;
 mod c14;
 mod c15;
@@ -67,6 +69,7 @@ fn main() {
         "c02" => c02::main(rest),
         "c03" => c03::main(rest),
         "c04" => c04::main(rest),
+        "c05" => c05::main(rest),
         "c09" => c09::main(rest),
         "c14" => c14::main(rest),
         "c15" => c15::main(rest),
